@@ -51,6 +51,23 @@ theorem sat_dnf {Env} (I : Interp Env) (ρ : Env) (f g : F) (deep : Bool) (h : d
 theorem dnf_total (f : F) (deep : Bool) (hw : WF f = true) (hn : NegOnAtoms f = true) :
     ∃ g, dnf f deep = .ok g := dnf_total' f deep hw hn
 
+/-! ### compositions used by the solver (corollaries, stated for every interpretation) -/
+/-- double negation: `-(-f)` has the verdict of `f` under every interpretation, whatever shape the
+two negations rewrote the formula into -/
+theorem sat_negF_negF {Env} (I : Interp Env) (ρ : Env) (f g h : F)
+    (h1 : negF f = some g) (h2 : negF g = some h) : Sat I ρ h ↔ Sat I ρ f := by
+  rw [sat_negF I ρ g h h2, sat_negF I ρ f g h1]; exact Classical.not_not
+
+/-- `convert_to_nnf(f, negate=True)` and `-f` agree under every interpretation -/
+theorem sat_nnf_neg_eq_negF {Env} (I : Interp Env) (ρ : Env) (f g n : F)
+    (h1 : nnf f true = some n) (h2 : negF f = some g) : Sat I ρ n ↔ Sat I ρ g := by
+  rw [sat_nnf I ρ f n true h1, sat_negF I ρ f g h2]; simp
+
+/-- the solver's normalisation pipeline NNF ∘ DNF preserves the verdict -/
+theorem sat_dnf_nnf {Env} (I : Interp Env) (ρ : Env) (f n d : F) (deep : Bool)
+    (h1 : nnf f false = some n) (h2 : dnf n deep = .ok d) : Sat I ρ d ↔ Sat I ρ f := by
+  rw [sat_dnf I ρ n d deep h2, sat_nnf I ρ f n false h1]; simp
+
 /-! non-vacuity -/
 def exF : F := .conj [.disj [.atom 1, .smt 2 true], .all 0 (.disj [.atom 3, .neg (.atom 1)]), .smt 4 false]
 example : WF exF = true ∧ NegOnAtoms exF = true := by decide
